@@ -275,20 +275,9 @@ def reproducible(ctx):
             if how == "abstract" and len(ctx.history) >= ABSTRACT_DEPTH["n"]:
                 continue
             try:
-                if how == "build":
-                    other = seq.build(**{n: [100] * v.size for n, v in seq.declared_variables.items()})
-                elif how == "switch_register":
-                    other = seq.switch_register(ctx.world.register)
-                elif how == "switch_device":
-                    import dataclasses
-
-                    # a renamed but otherwise identical device (the same device returns the sequence itself)
-                    other = seq.switch_device(dataclasses.replace(ctx.world.device, name="W_renamed"), strict=True)
-                    assert other is not seq
-                else:
-                    other = Sequence.from_abstract_repr(seq.to_abstract_repr())
+                other = _copy_of(seq, how, ctx.world)
             except Exception as e:
-                ctxt = label(ctx.op) + (":after-measure" if ctx.pre.flags.get("meas") else "")
+                ctxt = _first_uncopyable(ctx, how, type(e))
                 out.append((f"C09:copy-raises:{how}:{type(e).__name__}:{ctxt}", f"{how}: {e!r}"[:200]))
                 continue
             ctx.act["copies_compared:" + how] += 1
@@ -332,6 +321,44 @@ def reproducible(ctx):
                 except Exception as e:
                     out.append((f"C09:copy-raises-after-list-edit:{type(e).__name__}", repr(e)[:200]))
     return out
+
+
+def _copy_of(seq, how, world):
+    from pulser import Sequence
+
+    if how == "build":
+        return seq.build(**{n: [100] * v.size for n, v in seq.declared_variables.items()})
+    if how == "switch_register":
+        return seq.switch_register(world.register)
+    if how == "switch_device":
+        import dataclasses
+
+        # a renamed but otherwise identical device (the same device returns the sequence itself)
+        other = seq.switch_device(dataclasses.replace(world.device, name="W_renamed"), strict=True)
+        assert other is not seq
+        return other
+    return Sequence.from_abstract_repr(seq.to_abstract_repr())
+
+
+def _first_uncopyable(ctx, how, etype):
+    """Names the call after which this kind of copy FIRST raises this exception: every prefix of the history is replayed on
+    a fresh sequence.  A sequence that cannot be copied stays so under later calls; the finding is the shortest history."""
+    from mc.worlds import apply
+
+    w = ctx.world
+    seq = w.fresh()
+    for op in list(ctx.history) + [ctx.raw or ctx.op]:
+        pre_meas = snapshot.snap(seq).flags.get("meas")
+        try:
+            apply(seq, op, w)
+        except Exception:
+            continue
+        try:
+            _copy_of(seq, how, w)
+        except Exception as e2:
+            if type(e2) is etype:
+                return label(w.xlate(op)) + (":after-measure" if pre_meas else "")
+    return label(ctx.op) + (":after-measure" if ctx.pre.flags.get("meas") else "")
 
 
 def _copy_mutations(other):
